@@ -38,6 +38,10 @@ ASSUMPTIONS = [
     "calc_stat_ext: the docstring does not say which ddof std uses; either is accepted",
 ]
 MIN_NONTRIVIAL = {"quick": 1500, "thorough": 30000}
+
+# extra workload of the thorough tier: the repository's own tests with the cheap monitors
+# of vf/ambient.py attached (never the deciding one; DESIGN 2.8)
+AMBIENT = {"tests": ['test_cla.py'], "monitors": ['extrema'], "quick": False}
 TIMEOUT = {"quick": 1200, "thorough": 7200}
 
 # total number of generated histories per family (split over the shards)
